@@ -3,6 +3,7 @@ package rules
 import (
 	"go/token"
 	"go/types"
+	"strings"
 
 	"golang.org/x/tools/go/ssa"
 
@@ -248,6 +249,55 @@ func c03(p *model.Prog, r *report.Result) {
 	}
 	if nDel < 6 {
 		r.Bad("C03.R2", "floor", "", "fewer than 6 delIn call sites found")
+	}
+
+	// ---------------------------------------------------------------- R6
+	r.Rule("C03.R6", "a departed customize input can no longer feed the stream: delCustomizePubSession calls CustomizePubSessionContext.Dispose() before delIn, and every forwarding call in the context's Feed* methods is dominated by the false edge of disposeFlag.Load()")
+	dcp := p.Method("pkg/logic", "Group", "delCustomizePubSession")
+	ctxDispose := p.MethodObj("pkg/logic", "CustomizePubSessionContext", "Dispose")
+	okDisp := false
+	for _, d := range model.CallsTo(dcp, delIn) {
+		for _, c := range model.CallsTo(dcp, ctxDispose) {
+			if model.InstrDominates(c, d) {
+				okDisp = true
+			}
+		}
+	}
+	r.Check(okDisp, "C03.R6", fkey(dcp, "departed", "ctx.Dispose"), p.Pos(dcp.Pos()), "the context is disposed before teardown", "a removed customize publisher keeps its callback into the group: media of a departed input is still forwarded")
+	disposeFlagF := p.Field("pkg/logic", "CustomizePubSessionContext", "disposeFlag")
+	onRtmpMsgF := p.Field("pkg/logic", "CustomizePubSessionContext", "onRtmpMsg")
+	remuxerF := p.Field("pkg/logic", "CustomizePubSessionContext", "remuxer")
+	nFeed := 0
+	for _, fn := range logicFns {
+		if fn.Signature.Recv() == nil || !strings.HasPrefix(fn.Name(), "Feed") || !strings.Contains(fn.Signature.Recv().Type().String(), "CustomizePubSessionContext") {
+			continue
+		}
+		for _, ci := range model.AllCalls(fn) {
+			forwards := false
+			if model.IsLoadOfField(ci.Common().Value, onRtmpMsgF) {
+				forwards = true
+			}
+			if rv := receiver(ci.Common()); rv != nil && model.IsLoadOfField(rv, remuxerF) {
+				forwards = true
+			}
+			if !forwards {
+				continue
+			}
+			nFeed++
+			ok := model.GuardedBy(ci, func(c ssa.Value, pol bool) bool {
+				call, isCall := c.(*ssa.Call)
+				if !isCall || pol {
+					return false
+				}
+				rv := receiver(call.Common())
+				fa, isFa := rv.(*ssa.FieldAddr)
+				return isFa && model.FieldOf(fa) == disposeFlagF
+			})
+			r.Check(ok, "C03.R6", fkey(fn, "forward", "after-dispose-check"), p.InstrPos(ci), "forwarding dominated by !disposeFlag.Load()", "a disposed customize publisher can still forward media into the group")
+		}
+	}
+	if nFeed < 3 {
+		r.Bad("C03.R6", "floor", "", "fewer than 3 forwarding calls in CustomizePubSessionContext.Feed* found")
 	}
 
 	// ---------------------------------------------------------------- R3
